@@ -971,11 +971,25 @@ class Interp:
             return "miss", None
         return "unknown", None
 
+    def _display(self, e, env, func):
+        out = []
+        for x in e.elts:
+            if isinstance(x, ast.Starred):
+                v = self.eval(x.value, env, func)
+                seq = self.concrete_iter(v)
+                if seq is None:
+                    out.append(Sym("star", v))
+                else:
+                    out.extend(seq)
+            else:
+                out.append(self.eval(x, env, func))
+        return out
+
     def e_Tuple(self, e, env, func):
-        return tuple(self.eval(x, env, func) for x in e.elts)
+        return tuple(self._display(e, env, func))
 
     def e_List(self, e, env, func):
-        return [self.eval(x, env, func) for x in e.elts]
+        return self._display(e, env, func)
 
     def e_Set(self, e, env, func):
         return Sym("set", *[self.eval(x, env, func) for x in e.elts])
